@@ -177,7 +177,7 @@ def r112(prog, chk):
 
 
 # ----------------------------------------------------------------------------- R11.3
-def r113(prog, chk):
+def r113(prog, chk, rule="R11.3"):
     ix = prog.ix
     f = ix.get_method(PP, "_build_production_names", own=True)
     rets = A.returns_of(f.node)
@@ -188,7 +188,7 @@ def r113(prog, chk):
     seen_names = set()
     for s, t, v in st:
         ok = isinstance(v, ast.Call) and A.callee_name(v) == "_unique_name" and len(v.args) == 2
-        chk.ob("R11.3", f"{f.short}|{A.keytext(f.node, s)}|stored name is _unique_name(name, seen)", ok, where(f, s), detail=T(v),
+        chk.ob(rule, f"{f.short}|{A.keytext(f.node, s)}|stored name is _unique_name(name, seen)", ok, where(f, s), detail=T(v),
                message=f"{f.short}: a production name is stored without being made unique")
         if not ok:
             continue
@@ -196,11 +196,11 @@ def r113(prog, chk):
         nm = v.args[0]
         okf, bad = every_origin(prog, f, nm, lambda x, ff: isinstance(x, ast.Call) and isinstance(x.func, ast.Attribute) and x.func.attr == "sub" and T(x.func.value).endswith("GLYPH_NAME_INVALID_CHARS")
                                 and A.is_const(x.args[0], ""), allow_const=False)
-        chk.ob("R11.3", f"{f.short}|{A.keytext(f.node, s)}|every stored name went through the invalid-character filter", okf, where(f, s), detail="GLYPH_NAME_INVALID_CHARS.sub('', ...)",
+        chk.ob(rule, f"{f.short}|{A.keytext(f.node, s)}|every stored name went through the invalid-character filter", okf, where(f, s), detail="GLYPH_NAME_INVALID_CHARS.sub('', ...)",
                message=f"{f.short}: a name reaches the rename map without the invalid characters being removed ({bad})")
         loopv = [a for a in ix.ancestors(s) if isinstance(a, ast.For)]
         okk = loopv and T(t.slice) in A.target_names(loopv[0].target)
-        chk.ob("R11.3", f"{f.short}|{A.keytext(f.node, s)}|keyed by the glyph's current name", bool(okk), where(f, s), detail=T(t), nontrivial=False, message=f"{f.short}: the map is not keyed by the current glyph name")
+        chk.ob(rule, f"{f.short}|{A.keytext(f.node, s)}|keyed by the glyph's current name", bool(okk), where(f, s), detail=T(t), nontrivial=False, message=f"{f.short}: the map is not keyed by the current glyph name")
     # names of skipped glyphs are reserved
     need(len(seen_names) == 1, f"cannot interpret {f.short}: seen")
     seen = seen_names.pop()
@@ -226,7 +226,7 @@ def r113(prog, chk):
             rec = [x for x in ast.walk(sk) if isinstance(x, ast.Assign) and isinstance(x.targets[0], ast.Subscript) and T(x.targets[0].value) == seen and T(x.targets[0].slice) == lv]
             # recording inside the skip branch only protects later glyphs: not accepted
             why = "names are only recorded when the loop reaches them (earlier production names can already have taken them)" if rec else why
-        chk.ob("R11.3", f"{f.short}|names of glyphs that are not renamed are reserved before unique names are generated", ok, where(f, sk), detail=why,
+        chk.ob(rule, f"{f.short}|names of glyphs that are not renamed are reserved before unique names are generated", ok, where(f, sk), detail=why,
                message=f"{f.short}: glyphs skipped by `{T(cond, 50)}` keep their names but these are not reserved in `{seen}`: a production name equal to one of them is handed "
                        f"out again (duplicate glyph names)")
     un = ix.get_method(PP, "_unique_name", own=True)
@@ -239,14 +239,14 @@ def r113(prog, chk):
         doms = [s_ for s_, t, v in rec if cfg.dominates(cfg.node_of(s_), cfg.node_of(rets[0]))]
         # the name recorded is the name returned: same reaching definitions of the variable at both places
         ok = bool(doms) and any({id(d.binder) for d in cfg.reaching_defs(name, s_)} == {id(d.binder) for d in cfg.reaching_defs(name, rets[0])} for s_ in doms)
-    chk.ob("R11.3", f"{un.short}|the returned name is recorded in seen", ok, where(un), detail="seen[name] = 1; return name", message="_unique_name returns a name without recording it: the same name can be handed out again")
+    chk.ob(rule, f"{un.short}|the returned name is recorded in seen", ok, where(un), detail="seen[name] = 1; return name", message="_unique_name returns a name without recording it: the same name can be handed out again")
     wl = [n for n in A.body_nodes(un.node) if isinstance(n, ast.While)]
     ok = len(wl) == 1 and isinstance(wl[0].test, ast.Compare) and isinstance(wl[0].test.ops[0], ast.In) and T(wl[0].test.comparators[0]) == seenp and name in T(wl[0].test.left)
-    chk.ob("R11.3", f"{un.short}|suffix search continues while the candidate is taken", ok, where(un), detail=T(wl[0].test) if wl else "", message="_unique_name does not check its suffixed candidate against the names already taken")
+    chk.ob(rule, f"{un.short}|suffix search continues while the candidate is taken", ok, where(un), detail=T(wl[0].test) if wl else "", message="_unique_name does not check its suffixed candidate against the names already taken")
     aug = [n for n in A.body_nodes(un.node) if isinstance(n, ast.AugAssign) and T(n.target) == name]
     ok = len(aug) == 1 and wl and T(aug[0].value) in T(wl[0].test.left) and any(o == "in" and l == name for o, l, r in facts(prog, un, aug[0]))
-    chk.ob("R11.3", f"{un.short}|the suffix appended is the one that was found free", ok, where(un), detail=T(aug[0]) if aug else "", message="_unique_name appends a different suffix from the one it tested")
-    chk.minimum("R11.3", 7)
+    chk.ob(rule, f"{un.short}|the suffix appended is the one that was found free", ok, where(un), detail=T(aug[0]) if aug else "", message="_unique_name appends a different suffix from the one it tested")
+    chk.minimum(rule, 7)
 
 
 # ----------------------------------------------------------------------------- R11.4
